@@ -178,6 +178,10 @@ static int judge(codec *c,const short *pcm,int mdb,const char *how,int *len_out)
    if (ret<0){
       if (ret==OPUS_BUFFER_TOO_SMALL && mdb<min_rfc_packet(c)){ MC_INC(c_toosmall); c->last_valid=0; return 0; }
       snprintf(sig,sizeof sig,"%s:ret_error:%s:%s",apiname(c),modename(c),errname(ret));
+      /* narrowly scoped signature of a defect found on the unchanged tree (FINDINGS F-C05-2: a repacketised sub-frame may be given more than
+         1276 bytes when the buffer exceeds 2*1276, the SILK->CELT redundancy then makes a 1513-byte frame and opus_repacketizer_cat refuses it) */
+      if (ret==OPUS_INTERNAL_ERROR && c->use_vbr && c->du>=16 && mdb>2552)
+         snprintf(sig,sizeof sig,"%s:ret_error:INTERNAL_ERROR:vbr_frame_ge_40ms_buffer_gt_2552",apiname(c));
       mc_fail(sig,"%s mode=%s bitrate=%s max_data_bytes=%d -> returned %d (%s); smallest well-formed packet of this duration is %d bytes, so the buffer is not too small | %s",
               c->desc,modename(c),brname(c->braw),mdb,ret,errname(ret),min_rfc_packet(c),how);
       return 1;
@@ -367,7 +371,7 @@ static int dfs(codec *c,int depth,sett s,int bp,int mp,int si,int warm,char *pat
       snprintf(path+pl,200-pl,"%s%s",pl?" ; ":"",OPN[op]);
       snprintf(how,sizeof how,"signal=%s; %d warm-up frame(s) with library defaults and max_data_bytes=%d, then one encode after each op: [%s] with b1=%s b2=%s m1=%d m2=%d",
                sig_name[SIGF[si]],warm,MP[mp][1],path,brname(BP[bp][0]),brname(BP[bp][1]),MP[mp][0],MP[mp][1]);
-      if (judge(c,sig_frame(si,warm+depth,c->fs,c->ch),mdb,how,NULL)) return 1;
+      if (judge(c,sig_frame(si,warm+depth,c->fs,c->ch),mdb,how,NULL)){ path[pl]=0; continue; }   /* recorded; this branch ends here, siblings restart from the snapshot */
       get_sett(c,&t,mdb);
       {
          uint64_t h=mc_hash(c->enc,c->enc_size,mc_mix(mc_mix(depth+1,mdb),mc_mix(si,c->du)));
